@@ -43,6 +43,11 @@ M = [
                                                 ("MessageClass::Response(ResponseType::Conflict) => 0x89,", "MessageClass::Response(ResponseType::Conflict) => 0x88,"), ("MessageClass::Response(ResponseType::RequestEntityIncomplete) => {\n                0x88", "MessageClass::Response(ResponseType::RequestEntityIncomplete) => {\n                0x89")], ["C05"]),
  ("c05_is_error_order", "src/header.rs", [("    Content,\n    Continue,\n\n    // 400 Codes\n    BadRequest,", "    Content,\n\n    // 400 Codes\n    BadRequest,\n    Continue,")], ["C05"]),
  ("c06_u16_width4", "src/option_value.rs", [("option_value_uint_impl!(OptionValueU16, u16, 2);", "option_value_uint_impl!(OptionValueU16, u16, 4);")], ["C06"]),
+ ("c06_no_reverse", "src/option_value.rs", [("        output.reverse();\n", "")], ["C06"]),
+ ("c06_shift_7", "src/option_value.rs", [("            draining_value >>= 8;", "            draining_value >>= 7;")], ["C06"]),
+ ("c06_drain_gt_ff", "src/option_value.rs", [("        while draining_value > 0 {", "        while draining_value > 0xff {")], ["C06"]),
+ ("c06_observe_mask24", "src/packet.rs", [("        self.add_option_as(CoapOption::Observe, OptionValueU32(value));", "        self.add_option_as(\n            CoapOption::Observe,\n            OptionValueU32(value & 0xff_ffff),\n        );")], ["C06"]),
+ ("c13_decode_max_encoded", "src/block_handler/block_value.rs", [("        let num = u16::try_from(scalar >> 4).map_err(|e| {", "        let num = u16::try_from(scalar.saturating_add(15) >> 4).map_err(|e| {")], ["C13"]),
  ("c06_ge_width", "src/option_value.rs", [("if encoded.len() > value_size {", "if encoded.len() >= value_size {")], ["C06"]),
  ("c07_non_gets_ack", "src/response.rs", [("MessageType::NonConfirmable => MessageType::NonConfirmable,", "MessageType::NonConfirmable => MessageType::Acknowledgement,")], ["C07"]),
  ("c07_no_token", "src/response.rs", [("        packet.set_token(request.get_token().to_vec());\n", "")], ["C07"]),
